@@ -101,6 +101,11 @@ static int split (char *line, char **tok)
 
 #include "ops_gensalt.h"
 #include "ops_crypt.h"
+#ifdef XC_HEAP
+#include "ops_heap.h"
+#else
+static int op_heap_dispatch (int n, char **tok) { (void)n; (void)tok; return 0; }
+#endif
 #ifdef XC_SO
 #include "ops_so.h"
 static int op_prim_dispatch (int n, char **tok) { return op_so_dispatch (n, tok); }
@@ -129,6 +134,7 @@ int main (int argc, char **argv)
       else if (!strcmp (tok[0], "OS")) { int isn; size_t l; unsigned char *p = unhex (tok[1], &l, &isn);
           os_real = isn; os_len = l > sizeof os_bytes ? sizeof os_bytes : l; os_pos = 0;
           if (p) { memcpy (os_bytes, p, os_len); free (p); } printf ("ok\n"); }
+      else if (op_heap_dispatch (n, tok)) ;
       else if (op_crypt_dispatch (n, tok)) ;
       else if (op_prim_dispatch (n, tok)) ;
       else printf ("bad-op\n");
